@@ -49,7 +49,7 @@ var props = map[string]propCfg{
 	"C16": {quick: 3000, thorough: 300000, quickRace: 800, thoroughRace: 60000, coldQuick: 160, coldThorough: 4000, level: "exploration", stallS: 40, engine: "E1 seeded goroutine scheduler + race detector",
 		components:  "real: phaser.Phase, SeqBag.SequencesChan producer goroutine, worker pool, closer goroutine, pairwise aligner, translation, SeqBag.LongestORF; environment: the harness is the consumer of the result channel (one more scheduled goroutine), yield points spliced by seamgen; stubs: none",
 		assumptions: e1Assumptions},
-	"C02": {quick: 150000, thorough: 8000000, coldQuick: 160, coldThorough: 4000, level: "exploration", stallS: 120, engine: "E2 simulated stream + real temp files + E1 seeded scheduler for the multi-alignment stream",
+	"C02": {quick: 150000, thorough: 8000000, quickRace: 20000, thoroughRace: 600000, coldQuick: 160, coldThorough: 4000, level: "exploration", stallS: 120, engine: "E2 simulated stream + real temp files + E1 seeded scheduler for the multi-alignment stream",
 		components:  "real: the 6 writers, the 6 lexers and parsers, utils.OpenWriteFile / CloseWriteFile / GetReader / GetReaderFromReader / ReadAlign / ParseAlignmentAuto / ParseMultiAlignmentsAuto incl. its parser goroutine and the close of the file, gzip and xz layers, real files in the run's temp directory; environment: simFile (fragmentation, empty reads, EOF style, close accounting), yield points spliced by seamgen; stubs: none",
 		assumptions: []string{"which characters a format can represent in a name is a table written from the statement and the format definitions (nameExtra in sim/c02.go): Nexus punctuation, '#' and '/' for Stockholm, '>' for FASTA are excluded; names equal to a format keyword are not generated", "no disk faults: the property does not quantify over them and goalign has no seam under os.Create/os.Open", "testing/synctest reports quiescence correctly (go1.26.8)"}},
 	"C14": {quick: 40000, thorough: 2000000, coldQuick: 160, coldThorough: 4000, level: "exploration", stallS: 120, engine: "E3 map-iteration-order seam (in-process)",
